@@ -7,3 +7,6 @@ NOT_CLAIMED = {f"C{n:02d}": _NB for n in range(1, 21)}
 CLAIMS = {}
 for _p in sorted(glob.glob(os.path.join(os.path.dirname(os.path.abspath(__file__)), "claims", "C*.json"))):
     CLAIMS[os.path.basename(_p)[:-5]] = json.load(open(_p))
+
+# Claims enter MANIFEST.json only after the coordinator has run the check on several seeds.
+REVIEWED = [l.strip() for l in open(os.path.join(os.path.dirname(os.path.abspath(__file__)), "reviewed.txt")) if l.strip()]
